@@ -417,7 +417,7 @@ def h_rate_coefficients(ctx, which, m=2):
             ratio = V.smin(1.0, V.smax(0.0, tenors[i + 1] - t) / (tenors[i + 1] - tenors[i]))
             want = V.ite(t < tenors[0], sig[i, 0] * x[i, 0], sig[i, 0] * x[i, 0] * ratio)
         conds.append(EQ(v[i, 0], want))
-    ctx.prove("C16.rate_coefficient_follows_its_documented_shape_in_time", AND(*conds), info=info, replay=rp)
+    ctx.prove("C16.attempted.rate_coefficient_follows_its_documented_shape_in_time", AND(*conds), info=info, replay=rp)
 
 
 # ---- discount factors
@@ -561,11 +561,15 @@ EXPECT = ["C16.simulation_leaves_the_initial_state_of_the_model_untouched", "C16
           "C16.df_exponential_model"]
 
 
+# the time profile of the rate coefficients is documented in their docstrings, not in the property: reported, not claimed
+ATTEMPTED = ["C16.attempted.rate_coefficient_follows_its_documented_shape_in_time"]
+
+
 def main(tier):
     bounds = {"euler": "<= 2 steps (quick) / 3 (thorough), state and driver dimension <= 2, constant / diag(x) / affine coefficient functions, arbitrary driver paths and drifts",
               "df": "<= 2 (quick) / 3 (thorough) rates, arbitrary increasing tenors, rates >= 0, 0 <= t1 < t2 <= last tenor",
               "outside": "the Libor drift term (dblquad of the copula derivative), LiborSDEFunction / ForwardMarketSDEFunction sigma(t) schedules, epsilon = h^BG passed to the driver"}
-    return run_check(PID, tier, harnesses(tier), expect=EXPECT, bounds=bounds,
+    return run_check(PID, tier, harnesses(tier), expect=EXPECT, attempted=ATTEMPTED, bounds=bounds,
                      assumptions=COMMON_ASSUMPTIONS + ["the simulators are built with __new__ around a scripted symbolic driver path (the driver itself is C15's subject)",
                                                        "exp as UF (positive, monotone, exp(0)=1)"])
 
